@@ -1187,7 +1187,7 @@ func poolKeyRule(w *World, r *Report, rule string) {
 			norm := ""
 			for c := range o.Calls {
 				n := callName(c.Common())
-				if strings.Contains(n, "Bech32") || strings.HasSuffix(n, "AccAddress.String") || strings.HasPrefix(n, "strings.To") {
+				if strings.Contains(n, "Bech32") || strings.HasSuffix(n, "AccAddress.String") || strings.HasPrefix(n, "strings.To") || strings.HasPrefix(n, "strings.Trim") {
 					norm = n
 				}
 			}
